@@ -67,7 +67,7 @@ CHECKS = {
         'value when the translator marked it as shadowing; the theorem assumes that mark is placed exactly when the name is in '
         'scope, which the check verifies on every exported grammar). Correspondence: scoping scenarios + random expressions, '
         'raw triples and parse outcomes, locals-dependent results.',
-   note=TB + 'Known finding: a let nested in a class member that re-binds an earlier FIELD name of that class (translator does not track class fields as binders). Inline Python is a closed vocabulary; parameters of templates are covered under C06.',
+   note=TB + 'The former finding (a let nested in a class member re-binding an earlier FIELD) was repaired in /repo (215eb89): the hypothesis of C05_scoping about the shadows flag now holds for class fields too and is checked on every exported grammar. Inline Python is a closed vocabulary; parameters of templates are covered under C06.',
    technique='Coq refinement proof with environment invariant (flat locals vs lexical scoping) + differential correspondence',
    ref='DESIGN.md §6 C05'),
  'C06': dict(
@@ -80,7 +80,7 @@ CHECKS = {
         'Correspondence: catalogue of templates x call sites (literal, compound, rule, class, nested, recursive, keyword, value, '
         'captured names, several instantiations at one position) x {unnamed, named}; each site with a finite expansion is also '
         'compared with the hand-expanded grammar on the implementation.',
-   note=TB + 'hashing of argument values as memo keys is outside the model (unhashable arguments are simply not memoised). Known findings: names used only in inline Python / counts of an argument are not captured (three catalogue sites).',
+   note=TB + 'hashing of argument values as memo keys is outside the model (unhashable arguments are simply not memoised). The former finding (names used only in inline Python / counts of an argument were not captured) was repaired in /repo (88af674).',
    technique='Coq refinement proof (closure semantics of template calls) + differential correspondence and hand expansions',
    ref='DESIGN.md §6 C06'),
  'C07': dict(
@@ -202,7 +202,7 @@ CHECKS = {
         'mini-language of Spill.v, so the block accounting need not be modelled). Correspondence: 10 inner expressions x 9 wrapper '
         'stacks x depths 1..120 (every depth across the 20-block threshold) x {unnamed, named} x {ignore, none} against the model '
         'and specification; recursion depth 10^3..10^5 through plain rules, templates, classes on the implementation.',
-   note=TB + 'partial: the Python/C stack is not modelled (no RecursionError is an observation); spill transparency is proved on a mini-language, the full model has no spilling. Known findings: names read only via inline Python / counts are not passed to the helper.',
+   note=TB + 'partial: the Python/C stack is not modelled (no RecursionError is an observation); spill transparency is proved on a mini-language, the full model has no spilling. The former finding (names read only via inline Python / counts were not passed to the split-off helper) was repaired in /repo (88af674).',
    technique='Coq proofs (wrappers transparent at any depth; helper spilling transparent) + differential correspondence across the block-budget threshold',
    ref='DESIGN.md §6 C17'), 'C18': dict(
    text='Coq theorems on the model of a module with a history (the grammar plus a log of earlier calls): '
